@@ -390,6 +390,113 @@ static std::vector<SweepArt> &sweep_arts()
 	return arts;
 }
 
+
+// CRC-consistent rewrites of non-payload .xz fields: the field is changed and
+// the CRC32 that covers it is recomputed, the way a file assembled from
+// pieces of two files (or a buggy writer) would look. A decoder that relies
+// on the CRC32 alone would accept them.
+struct Rewrite { std::string what; Bytes file; };
+
+static void le32(uint8_t *p, uint32_t v) { for (int i = 0; i < 4; ++i) p[i] = (uint8_t)(v >> (8 * i)); }
+
+static void make_rewrites(const SweepArt &a, std::vector<Rewrite> &out)
+{
+	if (a.fmt != 0) return;
+	size_t block_no = 0;
+	for (size_t fi = 0; fi < a.info.fields.size(); ++fi) {
+		const auto &f = a.info.fields[fi];
+		if (f.field == "stream_header") {
+			block_no = 0;
+			for (int id : { 0, 1, 4, 10 }) {
+				Bytes b = a.file;
+				if (b[f.off + 7] == id) continue;
+				b[f.off + 7] = (uint8_t)id;
+				le32(&b[f.off + 8], lzma_crc32(&b[f.off + 6], 2, 0));
+				out.push_back({ fmt("stream header check id -> %d (CRC32 fixed)", id), b });
+			}
+		} else if (f.field == "stream_footer") {
+			for (int id : { 0, 1, 4, 10 }) {
+				Bytes b = a.file;
+				if (b[f.off + 9] == id) continue;
+				b[f.off + 9] = (uint8_t)id;
+				le32(&b[f.off], lzma_crc32(&b[f.off + 4], 6, 0));
+				out.push_back({ fmt("stream footer check id -> %d (CRC32 fixed)", id), b });
+			}
+			for (int d : { -1, 1 }) {
+				Bytes b = a.file;
+				uint32_t bs = (uint32_t)b[f.off + 4] | ((uint32_t)b[f.off + 5] << 8) | ((uint32_t)b[f.off + 6] << 16) | ((uint32_t)b[f.off + 7] << 24);
+				if (d < 0 && bs == 0) continue;
+				le32(&b[f.off + 4], bs + (uint32_t)d);
+				le32(&b[f.off], lzma_crc32(&b[f.off + 4], 6, 0));
+				out.push_back({ fmt("backward size %+d (CRC32 fixed)", d), b });
+			}
+		} else if (f.field == "block_header") {
+			++block_no;
+			for (int which = 0; which < 2; ++which) for (int d : { -1, 1 }) {
+				Bytes b = a.file;
+				lzma_filter df[LZMA_FILTERS_MAX + 1];
+				lzma_block blk; memset(&blk, 0, sizeof blk);
+				blk.check = LZMA_CHECK_CRC32; blk.filters = df;
+				blk.header_size = lzma_block_header_size_decode(b[f.off]);
+				if (lzma_block_header_decode(&blk, nullptr, &b[f.off]) != LZMA_OK) continue;
+				lzma_vli *field = which ? &blk.uncompressed_size : &blk.compressed_size;
+				bool ok = *field != LZMA_VLI_UNKNOWN && !(d < 0 && *field <= 1);
+				if (ok) {
+					*field = (lzma_vli)((int64_t)*field + d);
+					ok = lzma_block_header_encode(&blk, &b[f.off]) == LZMA_OK;
+				}
+				lzma_filters_free(df, nullptr);
+				if (ok) out.push_back({ fmt("block %zu header %s size %+d (CRC32 fixed)", block_no, which ? "uncompressed" : "compressed", d), b });
+			}
+		} else if (f.field == "index") {
+			// rebuild the Index with one record changed
+			lzma_index *idx = nullptr;
+			uint64_t ml = UINT64_MAX;
+			size_t ip = f.off;
+			if (lzma_index_buffer_decode(&idx, &ml, nullptr, a.file.data(), &ip, f.off + f.len) != LZMA_OK) continue;
+			std::vector<std::pair<lzma_vli, lzma_vli>> recs;
+			lzma_index_iter it;
+			lzma_index_iter_init(&it, idx);
+			while (!lzma_index_iter_next(&it, LZMA_INDEX_ITER_BLOCK)) recs.push_back({ it.block.unpadded_size, it.block.uncompressed_size });
+			lzma_index_end(idx, nullptr);
+			for (size_t r = 0; r < recs.size(); ++r) for (int which = 0; which < 2; ++which) for (int d : { -1, 1 }) {
+				auto rr = recs;
+				lzma_vli &val = which ? rr[r].second : rr[r].first;
+				if (d < 0 && val <= (which ? 0u : 6u)) continue;
+				val = (lzma_vli)((int64_t)val + d);
+				lzma_index *n = lzma_index_init(nullptr);
+				bool ok = true;
+				for (auto &x : rr) if (lzma_index_append(n, nullptr, x.first, x.second) != LZMA_OK) ok = false;
+				if (ok && lzma_index_size(n) == f.len) {
+					Bytes b = a.file;
+					size_t op = f.off;
+					if (lzma_index_buffer_encode(n, b.data(), &op, f.off + f.len) == LZMA_OK)
+						out.push_back({ fmt("index record %zu %s size %+d (CRC32 fixed)", r + 1, which ? "uncompressed" : "unpadded", d), b });
+				}
+				lzma_index_end(n, nullptr);
+			}
+			if (recs.size() >= 2 && recs[0] != recs[1]) {
+				auto rr = recs; std::swap(rr[0], rr[1]);
+				lzma_index *n = lzma_index_init(nullptr);
+				for (auto &x : rr) lzma_index_append(n, nullptr, x.first, x.second);
+				if (lzma_index_size(n) == f.len) {
+					Bytes b = a.file; size_t op = f.off;
+					if (lzma_index_buffer_encode(n, b.data(), &op, f.off + f.len) == LZMA_OK) out.push_back({ "index records 1 and 2 swapped (CRC32 fixed)", b });
+				}
+				lzma_index_end(n, nullptr);
+			}
+		}
+	}
+}
+
+static const std::vector<Rewrite> &rewrites_of(size_t art_index)
+{
+	static std::vector<std::vector<Rewrite>> all;
+	auto &arts = sweep_arts();
+	if (all.empty()) { all.resize(arts.size()); for (size_t i = 0; i < arts.size(); ++i) make_rewrites(arts[i], all[i]); }
+	return all[art_index];
+}
+
 static const char *field_at(const XzInfo &info, size_t pos)
 {
 	for (auto &f : info.fields) if (pos >= f.off && pos < f.off + f.len) return f.field.c_str();
@@ -456,16 +563,29 @@ static void c05_exec(const Plan &plan, Verdict &v)
 		// index space: for each artefact: bits (8*size) then truncation lengths (size), times decoder variants
 		uint64_t j = (uint64_t)plan.p("sweep_index");
 		uint64_t total = 0;
-		for (auto &a : arts) total += a.file.size() * 9;
+		for (size_t ai = 0; ai < arts.size(); ++ai) total += arts[ai].file.size() * 9 + rewrites_of(ai).size();
 		uint64_t dv = j / total;      // decoder variant
 		j %= total;
 		SweepArt *a = nullptr;
-		for (auto &x : arts) { if (j < x.file.size() * 9) { a = &x; break; } j -= x.file.size() * 9; }
+		size_t art_index = 0;
+		for (size_t ai = 0; ai < arts.size(); ++ai) {
+			uint64_t n = arts[ai].file.size() * 9 + rewrites_of(ai).size();
+			if (j < n) { a = &arts[ai]; art_index = ai; break; }
+			j -= n;
+		}
 		if (!a) return;
 		Bytes damaged = a->file;
-		bool trunc = j >= a->file.size() * 8;
-		size_t pos;
-		if (trunc) { pos = (size_t)(j - a->file.size() * 8); damaged.resize(pos); v.count("fault.storage_truncate"); }
+		bool rewrite = j >= a->file.size() * 9;
+		bool trunc = !rewrite && j >= a->file.size() * 8;
+		size_t pos = 0;
+		std::string rewrite_what;
+		if (rewrite) {
+			const Rewrite &rw = rewrites_of(art_index)[(size_t)(j - a->file.size() * 9)];
+			damaged = rw.file; rewrite_what = rw.what;
+			while (pos < damaged.size() && damaged[pos] == a->file[pos]) ++pos;
+			v.count("fault.storage_consistent_rewrite");
+		}
+		else if (trunc) { pos = (size_t)(j - a->file.size() * 8); damaged.resize(pos); v.count("fault.storage_truncate"); }
 		else { pos = (size_t)(j / 8); damaged[pos] ^= (uint8_t)(1u << (j % 8)); v.count("fault.storage_flip"); }
 		DecSpec sp;
 		Chain dummy;
@@ -489,6 +609,7 @@ static void c05_exec(const Plan &plan, Verdict &v)
 			nonpayload = f != "payload" && f != "?";
 			v.count("field." + f);
 		}
+		if (rewrite) nonpayload = in_scope;
 		if (trunc) {
 			// a proper prefix that does not end at a Stream boundary (or inside
 			// padding, whose 4-byte granularity the decoder checks) ends inside a stream
@@ -502,7 +623,7 @@ static void c05_exec(const Plan &plan, Verdict &v)
 			}
 			if (pos == 0) trunc_inside = true;   // empty file: never a complete stream
 		}
-		std::string ctx = fmt(" [%s, %s at byte %zu%s, %s, delivery %d, field %s]", a->name.c_str(), trunc ? "truncated" : "bit flipped", pos, trunc ? "" : fmt(" bit %d", (int)(j % 8)).c_str(), dec_names[sp.kind], dl.mode, a->fmt == 0 && pos < a->file.size() ? field_at(a->info, pos) : "-");
+		std::string ctx = fmt(" [%s, %s at byte %zu%s, %s, delivery %d, field %s]", a->name.c_str(), rewrite ? rewrite_what.c_str() : trunc ? "truncated" : "bit flipped", pos, (trunc || rewrite) ? "" : fmt(" bit %d", (int)(j % 8)).c_str(), dec_names[sp.kind], dl.mode, a->fmt == 0 && pos < a->file.size() ? field_at(a->info, pos) : "-");
 		if (!in_scope && !trunc) {
 			// damage beyond what the decoder is asked to read: nothing promised,
 			// but still never wrong data with success for the part it read
@@ -530,7 +651,7 @@ static void c05_exec(const Plan &plan, Verdict &v)
 		}
 		std::vector<size_t> lz_plain = { 100, 180 };
 		judge_c05(v, a->file, damaged, expect_plain, a->has_check, o, nonpayload, trunc_inside, ctx, a->fmt == 2 ? &a->stream_ends : nullptr, a->fmt == 2 ? &lz_plain : nullptr);
-		v.feature(mix64(mix64(fnv_str(a->name), (uint64_t)sp.kind), mix64(trunc, pos * 8 + (trunc ? 0 : j % 8))));
+		v.feature(mix64(mix64(fnv_str(a->name), (uint64_t)sp.kind), mix64(trunc + 2 * rewrite, rewrite ? j : pos * 8 + (trunc ? 0 : j % 8))));
 		v.feature2(mix64(mix64(fnv_str(a->fmt == 0 && pos < a->file.size() ? field_at(a->info, pos) : "-"), (uint64_t)trunc), (uint64_t)sp.kind));
 		return;
 	}
